@@ -48,8 +48,8 @@ func (o crashOp) String() string {
 		return fmt.Sprintf("%s(%q,%q)", o.Kind, o.Coll, o.Field)
 	case "CreateCollectionByQuery":
 		return fmt.Sprintf("CreateCollectionByQuery(%q from %q where a>=%d)", o.Coll2, o.Coll, o.Pivot)
-	case "ImportCollection":
-		return fmt.Sprintf("ImportCollection(%q, %d docs)", o.Coll, len(o.Docs))
+	case "ImportCollection", "ImportDup":
+		return fmt.Sprintf("%s(%q, %d docs)", o.Kind, o.Coll, len(o.Docs))
 	}
 	return fmt.Sprintf("%s(%q)", o.Kind, o.Coll)
 }
@@ -181,6 +181,11 @@ func applyCrashOp(m *model.DB, o crashOp) string {
 		}
 		m.Colls[o.Coll2] = nc
 		return OK
+	case "ImportDup": // a file repeating one _id: the import must fail as a whole
+		if mc != nil {
+			return ECollYes
+		}
+		return EDup
 	case "ImportCollection":
 		if mc != nil {
 			return ECollYes
@@ -241,7 +246,23 @@ func crashHistory(seed uint64) []crashOp {
 	}
 	for i := 0; i < nops; i++ {
 		c := existing()
-		switch r.Weighted([]int{4, 4, 6, 3, 14, 10, 4, 6, 8, 6, 5, 3, 3}) {
+		switch r.Weighted([]int{4, 4, 6, 3, 14, 10, 4, 6, 8, 6, 5, 3, 3, 3}) {
+		case 13:
+			// an import that fails after it started, then operations on the name it did not create
+			name := gen.Pick(r, []string{"d1", "d2"})
+			n := r.Range(2, 6)
+			ds := make([]map[string]any, n)
+			for k := range ds {
+				ds[k] = map[string]any{"_id": r.UUID(), "a": int64(r.Intn(9)), "s": "imp"}
+			}
+			ds[n-1]["_id"] = ds[r.Intn(n-1)]["_id"]
+			add(crashOp{Kind: "ImportDup", Coll: name, Docs: ds})
+			add(crashOp{Kind: "Insert", Coll: name, Docs: []map[string]any{crashDoc(r, 0)}})
+			add(crashOp{Kind: "CreateIndex", Coll: name, Field: "a"})
+			if r.Bool() {
+				add(crashOp{Kind: "CreateCollection", Coll: name})
+				add(crashOp{Kind: "Insert", Coll: name, Docs: []map[string]any{crashDoc(r, 0), crashDoc(r, 0)}})
+			}
 		case 0:
 			add(crashOp{Kind: "CreateCollection", Coll: gen.Pick(r, names)})
 		case 1:
@@ -340,7 +361,7 @@ func execCrashOp(db *clover.DB, o crashOp, dir string) error {
 		return db.Delete(q())
 	case "CreateCollectionByQuery":
 		return db.CreateCollectionByQuery(o.Coll2, query.NewQuery(o.Coll).Where(query.Field("a").GtEq(o.Pivot)))
-	case "ImportCollection":
+	case "ImportCollection", "ImportDup":
 		var b strings.Builder
 		b.WriteString("[")
 		for i, d := range o.Docs {
